@@ -11,7 +11,6 @@ import (
 	"errors"
 	"fmt"
 	"io"
-	"os"
 	"strings"
 	"sync"
 	"sync/atomic"
@@ -39,17 +38,17 @@ type outMsg struct {
 }
 
 type sPeer struct {
-	id      p2p.NodeID
-	in      chan *p2p.Msg
-	out     chan outMsg
-	closed  chan struct{}
-	once    sync.Once
-	mu      sync.Mutex
-	wd      time.Duration
-	status  int32
-	byNode  int32 // 1: Close was called by the node
-	selfCls int32
-	written int64
+	id       p2p.NodeID
+	in       chan *p2p.Msg
+	out      chan outMsg
+	closed   chan struct{}
+	once     sync.Once
+	mu       sync.Mutex
+	wd       time.Duration
+	status   int32
+	byNode   int32 // 1: Close was called by the node
+	selfCls  int32
+	written  int64
 	answered *int64 // bytes the node wrote, summed over all connections of the executor
 }
 
@@ -103,9 +102,9 @@ func (p *sPeer) SetWriteDeadline(d time.Duration) {
 	p.wd = d
 	p.mu.Unlock()
 }
-func (p *sPeer) RNodeID() *p2p.NodeID { return &p.id }
-func (p *sPeer) RAddress() string     { return "10.66.0.1:7001" }
-func (p *sPeer) LAddress() string     { return "127.0.0.1:7001" }
+func (p *sPeer) RNodeID() *p2p.NodeID                                        { return &p.id }
+func (p *sPeer) RAddress() string                                            { return "10.66.0.1:7001" }
+func (p *sPeer) LAddress() string                                            { return "127.0.0.1:7001" }
 func (p *sPeer) DoHandshake(prv *ecdsa.PrivateKey, nodeID *p2p.NodeID) error { return nil }
 func (p *sPeer) Run() error {
 	<-p.closed
@@ -141,33 +140,24 @@ func (p *sPeer) isClosed() bool {
 }
 
 type pmExec struct {
-	s       Sink
-	f       *chainFx
-	pm      *network.ProtocolManager
-	disc    *p2p.DiscoverManager
-	cur     *sPeer
-	nConn   int
-	gm      *gorMon
-	window  []Case
-	replies map[uint32]int64
-	repMu   sync.Mutex
-	pause   int32 // 1: the attacker does not read (slow reader)
+	s        Sink
+	f        *chainFx
+	pm       *network.ProtocolManager
+	disc     *p2p.DiscoverManager
+	cur      *sPeer
+	nConn    int
+	gm       *gorMon
+	window   []Case
+	replies  map[uint32]int64
+	repMu    sync.Mutex
+	pause    int32 // 1: the attacker does not read (slow reader)
 	answered int64
 	dead     bool // a liveness probe failed: the process has to be replaced
-	drainWG sync.WaitGroup
+	drainWG  sync.WaitGroup
 }
 
 func newPMExec(s Sink) (*pmExec, error) {
-	t0 := time.Now()
-	defer func() {
-		if os.Getenv("C15_DEBUG_TIME") != "" {
-			fmt.Fprintf(os.Stderr, "newPMExec %v\n", time.Since(t0))
-		}
-	}()
 	f, err := newChainFx()
-	if os.Getenv("C15_DEBUG_TIME") != "" {
-		fmt.Fprintf(os.Stderr, "newChainFx %v\n", time.Since(t0))
-	}
 	if err != nil {
 		return nil, err
 	}
@@ -243,10 +233,7 @@ var statusCh = make(chan struct{}, 1024)
 // connect opens a new scripted connection and answers the node's protocol handshake,
 // honestly (hs == nil) or with the given payload.
 func (x *pmExec) connect(hs *Payload, hsCode uint32) bool {
-	if os.Getenv("C15_DEBUG_TIME") != "" {
-		t0 := time.Now()
-		defer func() { fmt.Fprintf(os.Stderr, "connect %v\n", time.Since(t0)) }()
-	}
+
 	if x.dead {
 		return false
 	}
@@ -351,10 +338,7 @@ func (x *pmExec) statusRoundTrip() bool {
 // alive makes sure the node still serves an honest remote: on the current connection if the
 // node kept it, else on a new one.
 func (x *pmExec) alive() (ok bool, reconnected bool) {
-	if os.Getenv("C15_DEBUG_TIME") != "" {
-		t0 := time.Now()
-		defer func() { fmt.Fprintf(os.Stderr, "alive %v reconnected=%v\n", time.Since(t0), reconnected) }()
-	}
+
 	if x.cur != nil && !x.cur.isClosed() {
 		if x.statusRoundTrip() {
 			return true, false
@@ -376,10 +360,6 @@ func (x *pmExec) alive() (ok bool, reconnected bool) {
 func (x *pmExec) exec(cs Case) {
 	if x.dead {
 		return
-	}
-	if os.Getenv("C15_DEBUG_TIME") != "" {
-		t0 := time.Now()
-		defer func() { fmt.Fprintf(os.Stderr, "exec %v %s\n", time.Since(t0), cs.Kind) }()
 	}
 	x.window = append(x.window, cs)
 	wit := map[string]interface{}{"window": append([]Case(nil), x.window...)}
